@@ -1,3 +1,49 @@
 (* C23 - Row bit search returns the lowest aligned free block and sets exactly it.
-   Property theorems only; proofs live in RowProofs.v. *)
+   Property theorems only; the proofs are in RowProofs.v (bit lemmas in BitLemmas.v).
+   `fza` is the model of bitfield.rs `first_zeros_aligned`; `row_spec`, `block_free`, `block_mask`
+   are the specification (Row.v). All 2^64 row values, orders 0..6. *)
 From LLF Require Import Base Row RowProofs.
+
+(* the bit trick is the obvious search *)
+Theorem C23_row_search : forall v o, v < W64 -> (o <= 6)%nat -> fza v o = row_spec v o.
+Proof. exact fza_correct. Qed.
+Print Assumptions C23_row_search.
+
+(* "reports no block exactly when the row has no all-free aligned block of that order" *)
+Theorem C23_row_search_none : forall v o, v < W64 -> (o <= 6)%nat ->
+  (fza v o = None <->
+   forall q, q mod 2 ^ N.of_nat o = 0 -> q + 2 ^ N.of_nat o <= 64 -> block_free v o q = false).
+Proof.
+  intros v o Hv Ho. rewrite (fza_correct v o Hv Ho). split.
+  - apply row_spec_none; assumption.
+  - intros H. destruct (row_spec v o) as [[v' p]|] eqn:E; [|reflexivity].
+    destruct (row_spec_some v o v' p Ho E) as (Ha & Hr & Hf & _).
+    rewrite (H p Ha Hr) in Hf. discriminate.
+Qed.
+Print Assumptions C23_row_search_none.
+
+(* "otherwise it reports the lowest such block and returns the row with exactly that block's bits
+   additionally set" *)
+Theorem C23_row_search_some : forall v o v' p, v < W64 -> (o <= 6)%nat -> fza v o = Some (v', p) ->
+  p mod 2 ^ N.of_nat o = 0 /\ p + 2 ^ N.of_nat o <= 64 /\
+  (forall i, p <= i < p + 2 ^ N.of_nat o -> N.testbit v i = false) /\
+  (forall q, q mod 2 ^ N.of_nat o = 0 -> q < p -> block_free v o q = false) /\
+  (forall i, N.testbit v' i = (N.testbit v i || ((p <=? i) && (i <? p + 2 ^ N.of_nat o)))) /\
+  v' < W64.
+Proof.
+  intros v o v' p Hv Ho E. pose proof E as E'. rewrite (fza_correct v o Hv Ho) in E'.
+  destruct (row_spec_some v o v' p Ho E') as (Ha & Hr & Hf & _ & Hl).
+  repeat split; try assumption.
+  - apply block_free_spec; exact Hf.
+  - intro i. exact (fza_testbit v o v' p i Hv Ho E).
+  - exact (fza_lt v o v' p Hv Ho E).
+Qed.
+Print Assumptions C23_row_search_some.
+
+(* non-vacuity: a fragmented row where orders 0..3 find different blocks and order 4 finds none *)
+Example C23_example :
+  fza 0x00ff0f35ffff00f1 0 = Some (0x00ff0f35ffff00f3, 1) /\
+  fza 0x00ff0f35ffff00f1 2 = Some (0x00ff0f35ffff0ff1, 8) /\
+  fza 0x00ff0f35ffff00f1 3 = Some (0x00ff0f35fffffff1, 8) /\
+  fza 0xffff0f35ffff00f1 4 = None.
+Proof. vm_compute. repeat split; reflexivity. Qed.
